@@ -14,8 +14,11 @@
 #include "pstrtod.h"
 
 #include <ctype.h>
+#include <locale.h>
 #include <math.h>
+#include <stdlib.h>
 #include <limits>
+#include <string>
 #include <string.h>
 
 #ifdef _WIN32
@@ -85,23 +88,22 @@ pstrtod(const char *nptr, char **endptr) {
     }
 
   } else {
-    // Start reading decimal digits to the left of the decimal point.
+    // Scan the number ourselves, so that "." is always the decimal point and
+    // nothing else is, whatever the locale.
+    const char *start = p;
+    const char *point = nullptr;
     bool found_digits = false;
     while (isdigit(*p)) {
-      value = (value * 10.0) + (*p - '0');
       found_digits = true;
       ++p;
     }
 
     if (*p == '.') {
+      point = p;
       ++p;
-      // Read decimal digits to the right of the decimal point.
-      double multiplicand = 0.1;
       while (isdigit(*p)) {
-        value += (*p - '0') * multiplicand;
-        ++p;
         found_digits = true;
-        multiplicand *= 0.1;
+        ++p;
       }
     }
 
@@ -114,28 +116,31 @@ pstrtod(const char *nptr, char **endptr) {
     }
 
     if (tolower(*p) == 'e') {
-      // There's an exponent.
-      ++p;
-
-      char esign = '+';
-      if (*p == '+' || *p == '-') {
-        esign = *p;
-        ++p;
+      // There's an exponent, provided that at least one digit follows.
+      const char *q = p + 1;
+      if (*q == '+' || *q == '-') {
+        ++q;
       }
-
-      // Start reading decimal digits to the left of the decimal point.
-      double evalue = 0.0;
-      while (isdigit(*p)) {
-        evalue = (evalue * 10.0) + (*p - '0');
-        ++p;
-      }
-
-      if (esign == '-') {
-        value /= pow(10.0, evalue);
-      } else {
-        value *= pow(10.0, evalue);
+      if (isdigit(*q)) {
+        while (isdigit(*q)) {
+          ++q;
+        }
+        p = q;
       }
     }
+
+    // Accumulating the digits in floating point does not give the nearest
+    // double (and loses subnormals altogether), so leave the conversion proper
+    // to the system strtod, which rounds correctly.  It expects the decimal
+    // point of the current locale, which we substitute for our ".".
+    std::string number(start, p);
+    if (point != nullptr) {
+      const char *decimal_point = localeconv()->decimal_point;
+      if (decimal_point != nullptr && decimal_point[0] != '\0') {
+        number.replace(point - start, 1, decimal_point);
+      }
+    }
+    value = strtod(number.c_str(), nullptr);
   }
 
   if (sign == '-') {
